@@ -498,4 +498,264 @@ theorem keyedWalk_char (cfg : Cfg) (p : Path) (sa oa : Val) :
       rw [hfc]
       rfl
 
+theorem keysOf_length (cfg : Cfg) (p : Path) : ∀ (xs : List Val) (ks : List Str),
+    keysOf cfg p xs = .ok ks → ks.length = xs.length
+  | [], ks, h => by simp [keysOf] at h; subst h; rfl
+  | x :: xs, ks, h => by
+    simp only [keysOf] at h
+    cases hk : keyOf cfg p x with
+    | error e => rw [hk] at h; cases h
+    | ok k =>
+      rw [hk] at h
+      simp only at h
+      cases hr : keysOf cfg p xs with
+      | error e => rw [hr] at h; cases h
+      | ok ks' =>
+        rw [hr] at h
+        cases h
+        simp [keysOf_length cfg p xs ks' hr]
+
+theorem mkEntries_keys : ∀ (ks : List Str) (xs : List Val) (i : Nat), ks.length = xs.length →
+    (mkEntries i ks xs).map (·.1) = ks
+  | [], [], _, _ => rfl
+  | [], _ :: _, _, h => by simp at h
+  | _ :: _, [], _, h => by simp at h
+  | k :: ks, x :: xs, i, h => by
+    simp only [List.length_cons, Nat.add_right_cancel_iff] at h
+    simp [mkEntries, mkEntries_keys ks xs (i + 1) h]
+
+/-- **Every record is classified exactly once** (all entry lists).  The keyed comparison of two lists with
+unique composite keys is: the results of the pairs with a common key, in the order of the left list; one
+`selfUnique` entry (own index) per left element whose key is absent on the right; one `otherUnique` entry
+(own index) per right element whose key is absent on the left.  No assumption on the other options except
+that the list itself is not excluded. -/
+theorem sub_keyed_char (cfg : Cfg) (hd : cfg.direct = false) (site : Site) (p : Path) (hx : excluded cfg p = false)
+    (c c' : Cls) (xs ys : List Val) (ks ko : List Str)
+    (hks : keysOf cfg p xs = .ok ks) (hko : keysOf cfg p ys = .ok ko) (hn : ks.Nodup) (hno : ko.Nodup) :
+    sub cfg site p (.list c xs) (.list c' ys) =
+      seqR (matchedRes cfg p (.list .n0 xs) (.list .n0 ys) (mkEntries 0 ko ys) 0 ks xs)
+        (.ok (keyedTail p
+          ((mkEntries 0 ks xs).filter (fun e => (findKey e.1 (mkEntries 0 ko ys)).isNone))
+          ((mkEntries 0 ko ys).filter (fun e => decide (e.1 ∉ ks))))) := by
+  have hl := keysOf_length cfg p xs ks hks
+  have hlo := keysOf_length cfg p ys ko hko
+  have := keyedWalk_char cfg p (.list .n0 xs) (.list .n0 ys) xs ks 0 [] (mkEntries 0 ko ys) hl hn
+    (by intro e he; cases he) (by rw [mkEntries_keys ko ys 0 hlo]; exact hno)
+  simp only [List.nil_append] at this
+  simp only [sub, hd, hx, hks, hko, Bool.false_eq_true, ↓reduceIte, false_and, and_false]
+  exact this
+
+/-! ### the composite key as a pure function (no transform) -/
+
+def recKey (kvs : List (Str × Val)) : List Str → Str → Str
+  | [], acc => acc
+  | key :: rest, acc =>
+    match Val.lookup key kvs with
+    | none => recKey kvs rest acc
+    | some v => recKey kvs rest ((if acc.isEmpty then acc else acc ++ [';']) ++ key ++ ['='] ++ pyStr v)
+
+/-- the composite key of a list element when `transform` is empty -/
+def keyP (cfg : Cfg) : Val → Str
+  | .dict _ kvs => if cfg.ck.pats.isEmpty then [] else recKey kvs cfg.ck.pats []
+  | v => pyStr v
+
+theorem recordKey_pure {cfg : Cfg} (h : NoPathOpts cfg) (p : Path) (kvs : List (Str × Val)) :
+    ∀ (fs : List Str) (acc : Str), recordKey cfg p kvs fs acc = .ok (recKey kvs fs acc)
+  | [], acc => by simp [recordKey, recKey]
+  | f :: fs, acc => by
+    simp only [recordKey, recKey, h.tr, List.map_nil, xpathMatchFrom]
+    cases Val.lookup f kvs with
+    | none => exact recordKey_pure h p kvs fs acc
+    | some v => exact recordKey_pure h p kvs fs _
+
+theorem keyOf_pure {cfg : Cfg} (h : NoPathOpts cfg) (p : Path) (x : Val) :
+    keyOf cfg p x = .ok (keyP cfg x) := by
+  cases x <;> simp only [keyOf, keyP]
+  rw [recordKey_pure h p]
+  split <;> rfl
+
+theorem keysOf_pure {cfg : Cfg} (h : NoPathOpts cfg) (p : Path) :
+    ∀ xs : List Val, keysOf cfg p xs = .ok (xs.map (keyP cfg))
+  | [] => rfl
+  | x :: xs => by simp only [keysOf, keyOf_pure h p x, keysOf_pure h p xs, List.map_cons]
+
+/-! ### target 2 (line counts) -/
+
+/-- the number of lines of a pair of list items (it does not depend on where the pair is) -/
+def pairD (cfg : Cfg) (x y : Val) : Except PyErr Nat := dE (itemRes cfg [] [] [] .none .none x y)
+
+theorem itemRes_dE {cfg : Cfg} (h : NoPathOpts cfg) (p pne pdt : Path) (sa oa x y : Val) :
+    dE (itemRes cfg p pne pdt sa oa x y) = pairD cfg x y :=
+  itemRes_pref h p pne pdt [] [] [] sa oa .none .none x y (sub_pref cfg h .item pne [] x y)
+
+/-- the element of `ys` whose key is `k` -/
+def partner (cfg : Cfg) (k : Str) (ys : List Val) : Option Val := ys.find? (fun y => decide (k = keyP cfg y))
+
+def sumE : List (Except PyErr Nat) → Except PyErr Nat
+  | [] => .ok 0
+  | a :: l => addE a (sumE l)
+
+/-- lines contributed by the left element `x`: one if its key is absent on the right, else those of the pair -/
+def elemD (cfg : Cfg) (ys : List Val) (x : Val) : Except PyErr Nat :=
+  match partner cfg (keyP cfg x) ys with
+  | none => .ok 1
+  | some y => pairD cfg x y
+
+/-- the line count of one keyed level, as a sum over the records -/
+def levelD (cfg : Cfg) (xs ys : List Val) : Except PyErr Nat :=
+  addE (sumE (xs.map (elemD cfg ys)))
+    (.ok (ys.filter (fun y => decide (keyP cfg y ∉ xs.map (keyP cfg)))).length)
+
+theorem findKey_mkEntries (cfg : Cfg) (k : Str) : ∀ (ys : List Val) (j : Nat),
+    (findKey k (mkEntries j (ys.map (keyP cfg)) ys)).map (·.2) = partner cfg k ys
+  | [], _ => rfl
+  | y :: ys, j => by
+    simp only [List.map_cons, mkEntries, findKey, partner, List.find?_cons]
+    by_cases hk : k = keyP cfg y
+    · simp [hk]
+    · simp only [hk, ↓reduceIte, decide_false]
+      exact findKey_mkEntries cfg k ys (j + 1)
+
+theorem mkEntries_filter_length (cfg : Cfg) (ks : List Str) : ∀ (ys : List Val) (j : Nat),
+    ((mkEntries j (ys.map (keyP cfg)) ys).filter (fun e => decide (e.1 ∉ ks))).length =
+      (ys.filter (fun y => decide (keyP cfg y ∉ ks))).length
+  | [], _ => rfl
+  | y :: ys, j => by
+    simp only [List.map_cons, mkEntries, List.filter_cons]
+    have ih := mkEntries_filter_length cfg ks ys (j + 1)
+    by_cases hk : keyP cfg y ∈ ks
+    · simp [hk]; simpa using ih
+    · simp [hk]; simpa using ih
+
+theorem matched_dE {cfg : Cfg} (h : NoPathOpts cfg) (p : Path) (sa oa : Val) (ys : List Val) :
+    ∀ (xs : List Val) (i n : Nat),
+      addE (dE (matchedRes cfg p sa oa (mkEntries 0 (ys.map (keyP cfg)) ys) i (xs.map (keyP cfg)) xs))
+        (.ok (((mkEntries i (xs.map (keyP cfg)) xs).filter
+          (fun e => (findKey e.1 (mkEntries 0 (ys.map (keyP cfg)) ys)).isNone)).length + n)) =
+      addE (sumE (xs.map (elemD cfg ys))) (.ok n)
+  | [], i, n => by simp [matchedRes, mkEntries, sumE, addE, Res.empty]
+  | x :: xs, i, n => by
+    have hp := findKey_mkEntries cfg (keyP cfg x) ys 0
+    simp only [List.map_cons, matchedRes, mkEntries, sumE, elemD]
+    cases hf : findKey (keyP cfg x) (mkEntries 0 (ys.map (keyP cfg)) ys) with
+    | none =>
+      rw [hf] at hp
+      simp only [Option.map_none] at hp
+      rw [← hp, List.filter_cons_of_pos (by simp [hf])]
+      have ih := matched_dE h p sa oa ys xs (i + 1) (n + 1)
+      simp only [List.length_cons]
+      rw [show ∀ a : Nat, a + 1 + n = a + (n + 1) from by omega, ih]
+      cases sumE (xs.map (elemD cfg ys)) with
+      | error e => rfl
+      | ok m => simp only [addE]; congr 1; omega
+    | some jy =>
+      rw [hf] at hp
+      simp only [Option.map_some] at hp
+      rw [← hp, List.filter_cons_of_neg (by simp [hf])]
+      have ih := matched_dE h p sa oa ys xs (i + 1) n
+      simp only [dE_seqR, pairRes, itemRes_dE h, addE_assoc]
+      rw [ih]
+
+/-- **Every record is classified exactly once** (line count): with unique keys on both sides the number of
+lines of a keyed list comparison is the sum over the left elements of (one line if the key is absent on the
+right, else the lines of the pair with the right element of the same key) plus one line per right element
+whose key is absent on the left. -/
+theorem sub_keyed_diffs (cfg : Cfg) (h : NoPathOpts cfg) (hd : cfg.direct = false) (site : Site) (p : Path)
+    (c c' : Cls) (xs ys : List Val)
+    (hn : (xs.map (keyP cfg)).Nodup) (hno : (ys.map (keyP cfg)).Nodup) :
+    dE (sub cfg site p (.list c xs) (.list c' ys)) = levelD cfg xs ys := by
+  rw [sub_keyed_char cfg hd site p (excluded_npo h p) c c' xs ys _ _ (keysOf_pure h p xs) (keysOf_pure h p ys) hn hno]
+  simp only [dE_seqR, dE_ok, keyedTail, levelD]
+  rw [matched_dE h, mkEntries_filter_length]
+
+/-! ### target 3: permutations do not change the verdict of a keyed level -/
+
+/-- forget which exception was raised -/
+def okD (r : Except PyErr Nat) : Option Nat :=
+  match r with
+  | .ok n => some n
+  | .error _ => none
+
+def oadd (a b : Option Nat) : Option Nat :=
+  match a, b with
+  | some m, some n => some (m + n)
+  | _, _ => none
+
+def osum : List (Option Nat) → Option Nat
+  | [] => some 0
+  | a :: l => oadd a (osum l)
+
+theorem okD_addE (a b : Except PyErr Nat) : okD (addE a b) = oadd (okD a) (okD b) := by
+  cases a <;> cases b <;> rfl
+
+theorem okD_sumE : ∀ l : List (Except PyErr Nat), okD (sumE l) = osum (l.map okD)
+  | [] => rfl
+  | a :: l => by simp only [sumE, okD_addE, okD_sumE l, List.map_cons, osum]
+
+theorem oadd_left_comm (a b c : Option Nat) : oadd a (oadd b c) = oadd b (oadd a c) := by
+  cases a <;> cases b <;> cases c <;> simp [oadd]; omega
+
+theorem osum_perm {l l' : List (Option Nat)} (h : l.Perm l') : osum l = osum l' := by
+  induction h with
+  | nil => rfl
+  | cons a _ ih => simp only [osum, ih]
+  | swap a b l => simp only [osum, oadd_left_comm]
+  | trans _ _ ih1 ih2 => exact ih1.trans ih2
+
+theorem verdict_eq_okD (r : Except PyErr Res) : verdict r = (okD (dE r)).map (· == 0) := by
+  cases r <;> rfl
+
+theorem partner_of_mem (cfg : Cfg) : ∀ (ys : List Val), (ys.map (keyP cfg)).Nodup → ∀ y ∈ ys,
+    partner cfg (keyP cfg y) ys = some y
+  | [], _, y, hy => by cases hy
+  | z :: ys, hn, y, hy => by
+    simp only [List.map_cons, List.nodup_cons] at hn
+    simp only [partner, List.find?_cons]
+    cases hy with
+    | head => simp
+    | tail _ hy' =>
+      have hne : keyP cfg y ≠ keyP cfg z := fun hh => hn.1 (hh ▸ List.mem_map_of_mem hy')
+      simp only [hne, decide_false]
+      exact partner_of_mem cfg ys hn.2 y hy'
+
+theorem partner_perm (cfg : Cfg) {ys ys' : List Val} (hp : ys.Perm ys') (hn : (ys.map (keyP cfg)).Nodup)
+    (k : Str) : partner cfg k ys = partner cfg k ys' := by
+  have hn' : (ys'.map (keyP cfg)).Nodup := (hp.map (keyP cfg)).nodup_iff.1 hn
+  cases h : partner cfg k ys with
+  | none =>
+    simp only [partner, List.find?_eq_none] at h
+    symm
+    simp only [partner, List.find?_eq_none]
+    intro y hy
+    exact h y (hp.mem_iff.2 hy)
+  | some y =>
+    have hm : y ∈ ys := List.mem_of_find?_eq_some h
+    have hk : k = keyP cfg y := by simpa using List.find?_some h
+    subst hk
+    exact (partner_of_mem cfg ys' hn' y (hp.mem_iff.1 hm)).symm
+
+theorem levelD_perm (cfg : Cfg) {xs xs' ys ys' : List Val} (hx : xs.Perm xs') (hy : ys.Perm ys')
+    (hno : (ys.map (keyP cfg)).Nodup) :
+    okD (levelD cfg xs ys) = okD (levelD cfg xs' ys') := by
+  have he : elemD cfg ys = elemD cfg ys' := by
+    funext x
+    simp only [elemD, partner_perm cfg hy hno]
+  have hf : ∀ y, decide (keyP cfg y ∉ xs.map (keyP cfg)) = decide (keyP cfg y ∉ xs'.map (keyP cfg)) := by
+    intro y
+    simp only [(hx.map (keyP cfg)).mem_iff]
+  simp only [levelD, okD_addE, okD_sumE, hf, he]
+  rw [osum_perm ((hx.map (elemD cfg ys')).map okD), (hy.filter _).length_eq]
+
+/-- **Permutation invariance of the verdict at one keyed level**: with unique composite keys, permuting the
+left list, the right list or both does not change the verdict (nor the number of lines, nor whether an
+exception is raised) — at any prefix. -/
+theorem sub_keyed_perm (cfg : Cfg) (h : NoPathOpts cfg) (hd : cfg.direct = false) (site : Site) (p p' : Path)
+    (c c' c₁ c₁' : Cls) {xs xs' ys ys' : List Val} (hx : xs.Perm xs') (hy : ys.Perm ys')
+    (hn : (xs.map (keyP cfg)).Nodup) (hno : (ys.map (keyP cfg)).Nodup) :
+    verdict (sub cfg site p (.list c xs) (.list c' ys)) = verdict (sub cfg site p' (.list c₁ xs') (.list c₁' ys')) := by
+  have hn' : (xs'.map (keyP cfg)).Nodup := (hx.map (keyP cfg)).nodup_iff.1 hn
+  have hno' : (ys'.map (keyP cfg)).Nodup := (hy.map (keyP cfg)).nodup_iff.1 hno
+  rw [verdict_eq_okD, verdict_eq_okD, sub_keyed_diffs cfg h hd site p c c' xs ys hn hno,
+    sub_keyed_diffs cfg h hd site p' c₁ c₁' xs' ys' hn' hno', levelD_perm cfg hx hy hno]
+
 end N0.Compare
